@@ -549,6 +549,12 @@ impl Database {
 #[cfg(not(feature = "no-flush"))]
 impl Drop for Database {
     fn drop(&mut self) {
+        // A transaction that is still open when the handle goes away can never commit.  Roll it back
+        // durably: its rows are written by the flush below, and the next open knows about rolled-back
+        // transactions only through the aborted set in page zero.
+        for txid in self.coordinator.abort_all() {
+            self.pager.write().mark_transaction_aborted(txid);
+        }
         // Best-effort flush on drop
         let _ = self.flush();
     }
